@@ -10,7 +10,7 @@ MUST_NOT_RAISE = True
 BUDGET_S = {"quick": 420, "thorough": 3000}
 BOUNDS = {
     "quick": "1 rank x 1..3 device activities (all class multisets over computation/communication/memory/other (a sync event on a stream)), plus "
-             "2 ranks x 1..2 activities; ts,dur symbolic Int in [0,2^52), dur >= 0 (zero length allowed)",
+             "2 ranks x 1..2 activities; ts,dur symbolic Int in [0,2^40], dur >= 0 (zero length allowed)",
     "thorough": "1 rank x 1..4 activities (all class multisets), 2 ranks x <=2 activities each (all pairs)",
 }
 EXPLANATION = ("Real TraceAnalysis.get_temporal_breakdown (idle_time_per_rank, _get_idle_time_for_kernels, "
@@ -19,7 +19,7 @@ EXPLANATION = ("Real TraceAnalysis.get_temporal_breakdown (idle_time_per_rank, _
                "non_compute = remainder; all >= 0 and summing to kernel_time; percentages = round(100*part/kernel_time,2); "
                "no exception (incl. hta's own asserts). Non-trivial path = admits idle>0, compute>0 and non_compute>0 "
                "(or, for skeletons where that is impossible, kernel_time>0).")
-ASSUMPTIONS = ["each rank has >= 1 device activity", "integer timestamps in [0,2^52)",
+ASSUMPTIONS = ["each rank has >= 1 device activity", "integer timestamps in [0,2^40]",
                "percentage clauses only when kernel_time > 0; round(x,2) modelled as within 0.005",
                "JSON reading stubbed"]
 STUBS = ["hta.common.trace_parser.parse_trace_dict", "Trace._validate_trace_files", "plotly", "logging"]
